@@ -199,7 +199,7 @@ func lpShow(c []float64, A [][]float64, b []float64) string {
 
 func runLP(t *simrt.Tape, rc *RunCtx) *Violation {
 	const prop = "C19"
-	rc.declare("lp_optimal", "lp_infeasible", "lp_unbounded", "lp_rank_deficient", "lp_degenerate_vertex", "lp_numeric_failure_reported", "lp_convert_checked", "lp_square")
+	rc.declare("lp_optimal", "lp_infeasible", "lp_unbounded", "lp_rank_deficient", "lp_degenerate_vertex", "lp_numeric_failure_reported", "lp_convert_checked", "lp_square", "lp_corpus_program")
 	m := 1 + t.Choose(simrt.KWorkload, 4)
 	n := m + t.Choose(simrt.KWorkload, 8-m)
 	A := make([][]float64, m)
@@ -268,6 +268,15 @@ func runLP(t *simrt.Tape, rc *RunCtx) *Violation {
 	c := make([]float64, n)
 	for j := range c {
 		c[j] = float64(t.Choose(simrt.KValue, 9) - 4)
+	}
+	if t.Choose(simrt.KWorkload, 100) == 99 {
+		// corpus: the program on which finding 24 (Phase I panic, 6f8b956) was
+		// first seen; the generator meets its like once in 10^6 programs
+		m, n = 4, 6
+		A = [][]float64{{-3, -3, -2, 1, 0, 2}, {-3, -3, -3, 3, -1, 0}, {-3, -3, -3, -3, 2, 2}, {-3, -3, -3, -2, 1, -3}}
+		b = []float64{-5, -6, -12, -11}
+		c = []float64{-4, -4, -4, -4, -4, -4}
+		rc.probe("lp_corpus_program", 1)
 	}
 	rc.Instance["program"] = lpShow(c, A, b)
 	rc.hist(fmt.Sprintf("m=%d", m))
